@@ -449,10 +449,14 @@ def fill_bounded():
 def reader_units():
     """Faithful fill rests on the filler seeing the solution as it was written: the fill_pdfs / _read_form_fields units of C14
     (parsed with the dialect it was written in, every entry re-typed by the definition of the same name) belong to C19 as well."""
-    from . import c14
+    from . import c14, c18
     out = []
     for o in c14.fill_pdfs_unit() + c14.read_form_fields_unit():
         o.id = o.id.replace('C14/', 'C19/reader/')
+        out.append(o)
+    # ... and on each box receiving what its own pdf field produces (length limit included): the _fill_form unit of C18
+    for o in c18.fill_form_unit():
+        o.id = o.id.replace('C18/', 'C19/filler/')
         out.append(o)
     return out
 
